@@ -477,7 +477,11 @@ func (a Sources) MarshalBinary() ([]byte, error) {
 	var pb internal.Measurements
 	pb.Items = make([]*internal.Measurement, len(a))
 	for i, source := range a {
-		pb.Items[i] = encodeMeasurement(source.(*Measurement))
+		mm, ok := source.(*Measurement)
+		if !ok {
+			return nil, fmt.Errorf("cannot encode source of type %T: only measurements can be encoded", source)
+		}
+		pb.Items[i] = encodeMeasurement(mm)
 	}
 	return proto.Marshal(&pb)
 }
